@@ -443,6 +443,7 @@ def run(prog, rep):
         guard = bool(calls) and all(any(t0.endswith(".endswith('_cardinality')") and p0 for t0, p0 in e0.guards()) for e0 in calls)
         rep.check(bool(calls) and guard, "TAB-4", "%s reader parses *_cardinality entries" % fname, "ok",
                   "cardinality entries are no longer passed through parse_cardinality", r.where)
+    ct.stateless_tools_rule(prog, rep, "STATE-2", ("DictWriter", "DictReader", "ODMLWriter", "ODMLReader"))
     # TUP-1: the tuple text form is for filled n-tuple Properties only
     rep.rule("TUP-1", "in the Property writer every call of odml_tuple_export lies on paths that know the value list to be non-empty (`<prop>.values` / "
                       "the value being exported is truthy) and the dtype to end in '-tuple': the text form of an empty list is the string '[]', "
